@@ -34,7 +34,11 @@ def uncps(a):
 
 
 def wkey(k):
-  return k if isinstance(k, int) else cps(k)
+  if isinstance(k, int):
+    return k
+  if isinstance(k, str):
+    return cps(k)
+  return cps('<object %s>' % type(k).__name__)     # a key the API must never hand out
 
 
 def unwkey(k):
@@ -354,7 +358,7 @@ class C10(Prop):
       yield {'op': 'order', 'ps': [wpath([rng.choice(ORDER_POOL) for _ in range(rng.randint(0, 3))])
                                    for _ in range(3)]}
     for _ in range(n_set):
-      dollar = rng.chance(0.03)
+      dollar = rng.chance(0.08)
       a = [gen_set_path(rng, dollar) for _ in range(rng.randint(0, 5))]
       b = [gen_set_path(rng, dollar) for _ in range(rng.randint(0, 5))]
       if rng.chance(0.2):
@@ -746,9 +750,7 @@ class C10(Prop):
     ps = [unwpath(p) for p in case['ps']]
     lt = out['model']['lt']
     n = len(ps)
-    mixed = any(isinstance(a[i], int) != isinstance(b[i], int)
-                for a in ps for b in ps for i in range(min(len(a), len(b))))
-    tag = 'order:mixed-int-str-keys' if mixed else None
+    tag = None      # (before fix F38 failures on mixed int/str positions carried their own signature)
     for i in range(n):
       if lt[i][i]:
         return {'signature': 'order:irreflexive', 'what': '%r < itself' % (ps[i],)}
@@ -767,10 +769,9 @@ class C10(Prop):
     m = out['model']
     a_paths = [unwpath(p) for p in case['a']]
     b_paths = [unwpath(p) for p in case['b']]
-    dollar = any(k == '$' for p in a_paths + b_paths + [unwpath(o['p']) for o in case['ops']] for k in p)
-
     def fail(kind, what):
-      return {'signature': 'set:dollar-key' if dollar else 'set:' + kind, 'what': what}
+      # (before fix F19 a failure on paths with the key '$' carried its own signature)
+      return {'signature': 'set:' + kind, 'what': what}
 
     def as_set(lst, what):
       ts = [tpath(unwpath(p)) for p in lst]
